@@ -54,7 +54,7 @@ class Client:
         except Exception:
             self.alive = False
 
-    def request(self, method, params=None, timeout=20):
+    def request(self, method, params=None, timeout=90):
         i = self.next_id
         self.next_id += 1
         m = {"jsonrpc": "2.0", "id": i, "method": method}
@@ -67,14 +67,16 @@ class Client:
                 if i in self.responses:
                     return self.responses.pop(i)
             if not self.alive:
-                return None
+                if method == "shutdown":
+                    return None
+                raise RuntimeError(f"the server went away during {method}")
             time.sleep(0.01)
-        return None
+        raise TimeoutError(f"no response to {method} within {timeout}s")
 
     def notify(self, method, params):
         self._send({"jsonrpc": "2.0", "method": method, "params": params})
 
-    def wait_publish(self, uri, since, timeout=20):
+    def wait_publish(self, uri, since, timeout=90):
         t0 = time.time()
         while time.time() - t0 < timeout:
             with self.lock:
@@ -132,3 +134,95 @@ def full_session(c, docdir, texts, sweep_step=2):
     c.request("shutdown")
     c.notify("exit", None)
     time.sleep(0.2)
+
+
+SENSITIVE = ["https://nightjar-internal.example.com/path?q=1", "http://example.org:8080/x", "ftp://files.example.net/a.txt",
+             "bob@corp.example.com", "www.example.com", "ws://socket.example.com", "wss://secure.example.com:443/ws",
+             "file:///etc/hostname", "/etc/passwd", "192.168.1.10:22", "localhost:3000", "mailto:alice@example.com",
+             "[the guide](https://docs.example.com/guide)", "<https://auto.example.io>", "![img](http://img.example.com/a.png)",
+             "ssh://git@git.example.com/repo.git", "\\\\fileserver\\share", "~/.ssh/id_rsa", "C:\\Users\\bob\\notes.txt"]
+LANGS = [("txt", "plaintext", ""), ("md", "markdown", ""), ("rs", "rust", "// "), ("py", "python", "# "), ("js", "javascript", "// "),
+         ("ts", "typescript", "// "), ("go", "go", "// "), ("c", "c", "// "), ("java", "java", "// "), ("lua", "lua", "-- "),
+         ("rb", "ruby", "# "), ("sh", "shellscript", "# "), ("toml", "toml", "# "), ("html", "html", ""), ("typ", "typst", ""),
+         ("lhs", "lhaskell", ""), ("txt", "git-commit", ""), ("xyz", "no-such-language", "")]
+
+
+def random_session(c, docdir, rng, corpus, ndocs=4, nops=18):
+    """A random session: documents in random languages whose prose names hosts, addresses and files;
+    random edits, code-action requests anywhere, every offered command except HarperOpen, dictionary
+    commands, saves, configuration changes, closes and re-opens, deletions."""
+    c.request("initialize", {"capabilities": {}, "processId": None, "rootUri": None})
+    c.notify("initialized", {})
+    time.sleep(0.2)
+
+    def make_text(prefix):
+        lines = []
+        for _ in range(rng.randint(1, 4)):
+            words = [rng.choice(corpus)]
+            for _ in range(rng.randint(1, 3)):
+                words.insert(rng.randint(0, len(words)), rng.choice(SENSITIVE))
+            lines.append(prefix + " ".join(words).replace("\n", " "))
+        return "\n".join(lines) + ("\n" if rng.random() < 0.7 else "")
+
+    docs = []
+    for k in range(ndocs):
+        ext, lang, prefix = rng.choice(LANGS)
+        path = os.path.join(docdir, f"r{k}.{ext}")
+        text = make_text(prefix)
+        with open(path, "w") as f:
+            f.write(text)
+        uri = "file://" + path if rng.random() < 0.85 else f"untitled:Untitled-{k}"
+        docs.append({"uri": uri, "path": path, "lang": lang, "prefix": prefix, "text": text, "open": False, "ver": 1})
+    for d in docs:
+        c.notify("textDocument/didOpen", {"textDocument": {"uri": d["uri"], "languageId": d["lang"], "version": 1, "text": d["text"]}})
+        d["open"] = True
+    for _ in range(nops):
+        d = rng.choice(docs)
+        op = rng.choice(["change", "action", "action", "action", "adduser", "addfile", "save", "config", "close", "delete"])
+        if not d["open"]:
+            c.notify("textDocument/didOpen", {"textDocument": {"uri": d["uri"], "languageId": d["lang"], "version": 1, "text": d["text"]}})
+            d["open"] = True
+            continue
+        if op == "change":
+            d["text"] = make_text(d["prefix"])
+            d["ver"] += 1
+            c.notify("textDocument/didChange", {"textDocument": {"uri": d["uri"], "version": d["ver"]}, "contentChanges": [{"text": d["text"]}]})
+        elif op == "action":
+            lines = d["text"].split("\n")
+            li = rng.randrange(len(lines))
+            ch = rng.randint(0, len(lines[li]))
+            pos = {"line": li, "character": ch}
+            end = {"line": li, "character": min(len(lines[li]), ch + rng.choice([0, 0, 1, 8]))}
+            acts = c.request("textDocument/codeAction", {"textDocument": {"uri": d["uri"]}, "range": {"start": pos, "end": end}, "context": {"diagnostics": []}})
+            for a in ((acts or {}).get("result") or [])[:4]:
+                cmd = a.get("command") if isinstance(a.get("command"), dict) else (a if isinstance(a.get("command"), str) else None)
+                if cmd and cmd.get("command") != "HarperOpen":
+                    c.request("workspace/executeCommand", {"command": cmd["command"], "arguments": cmd.get("arguments", [])})
+        elif op == "adduser":
+            c.request("workspace/executeCommand", {"command": "HarperAddToUserDict", "arguments": [rng.choice(["zzyzxq", "nightjar", "Ünï"]), d["uri"]]})
+        elif op == "addfile":
+            c.request("workspace/executeCommand", {"command": "HarperAddToFileDict", "arguments": [rng.choice(["qwertzuv", "example"]), d["uri"]]})
+        elif op == "save":
+            if d["uri"].startswith("file://"):
+                with open(d["path"], "w") as f:
+                    f.write(d["text"])
+            c.notify("textDocument/didSave", {"textDocument": {"uri": d["uri"]}})
+        elif op == "config":
+            st = json.loads(json.dumps(c.settings))
+            st["harper-ls"]["dialect"] = rng.choice(["American", "British", "Australian", "Canadian"])
+            st["harper-ls"]["linters"] = {"SpelledNumbers": rng.random() < 0.5, "SpellCheck": rng.random() < 0.8}
+            st["harper-ls"]["isolateEnglish"] = rng.random() < 0.3
+            c.settings = st
+            c.notify("workspace/didChangeConfiguration", {"settings": st})
+        elif op == "close":
+            c.notify("textDocument/didClose", {"textDocument": {"uri": d["uri"]}})
+            d["open"] = False
+        elif op == "delete":
+            c.notify("workspace/didChangeWatchedFiles", {"changes": [{"uri": d["uri"], "type": 3}]})
+    # a last request so that everything before it has been handled
+    c.request("textDocument/codeAction", {"textDocument": {"uri": docs[0]["uri"]}, "range": {"start": {"line": 0, "character": 0}, "end": {"line": 0, "character": 0}}, "context": {"diagnostics": []}})
+    time.sleep(0.3)
+    c.request("shutdown")
+    c.notify("exit", None)
+    time.sleep(0.2)
+    return [(d["lang"], d["text"][:80]) for d in docs]
